@@ -114,8 +114,9 @@ func okHex(b []byte) string { return vlib.Str(vlib.L(vlib.Atom("ok"), vlib.Hex(b
 
 // Gen writes the run for the given tier.
 func Gen(run *vlib.Run, seed uint64, tier string) {
-	run.Rule = "one case per codec call; non-trivial = the case exercises a data-dependent choice or check " +
-		"(INDEX with >=1 entry; reader input accepted or rejected after the header was parsed); " +
+	run.Rule = "one case per codec call, crafted file or whole font (written, walked, read back, compared field by field); " +
+		"non-trivial = the case exercises a data-dependent choice or check: INDEX with >=1 entry, DICT with >=1 byte, " +
+		"charset/encoding/FDSelect with >=2 glyphs, reader input that gets past its header, every real, width and font case; " +
 		"distinct by case line"
 	r := vlib.NewRand(seed)
 	genIndex(run, r.Fork("index"), tier)
